@@ -192,7 +192,7 @@ Lemma mol_value_lemma (atoms : list atomR) (ps : list (R * D)) sph ro : atoms <>
   mol atoms (map (fun p => [p]) ps) 0 sph ro
   = Vals [rsum (map2 (fun a p => interp_value ROps eps_small Y spl (a_grid a) (weighted a) (fst p) (snd p) 0) atoms ps)].
 Proof.
-  intros Ha Hl. unfold mol_interpolate.
+  intros Ha Hl. unfold mol_interpolate, mol_combine.
   assert (E : map2 (fun (a : atomR) pts => atom_interp ROps eps_small eps_jac Y dYt dYp sint cost sinp cosp phi spl a pts 0 sph ro)
                    atoms (map (fun p => [p]) ps)
               = map (fun v => Vals [v])
@@ -208,7 +208,7 @@ Lemma mol_gradient_lemma (atoms : list atomR) (ps : list (R * D)) : atoms <> [] 
   mol atoms (map (fun p => [p]) ps) 1 false false
   = Rows [(rsum (map (fun v => fst (fst v)) gs), rsum (map (fun v => snd (fst v)) gs), rsum (map snd gs))].
 Proof.
-  intros Ha Hl gs. unfold mol_interpolate.
+  intros Ha Hl gs. unfold mol_interpolate, mol_combine.
   assert (E : map2 (fun (a : atomR) pts => atom_interp ROps eps_small eps_jac Y dYt dYp sint cost sinp cosp phi spl a pts 1 false false)
                    atoms (map (fun p => [p]) ps) = map (fun v => Rows [v]) gs).
   { unfold gs. clear Ha gs. revert ps Hl. induction atoms as [|a atoms IH]; intros [|p ps] Hl; try discriminate; [reflexivity|].
